@@ -449,6 +449,21 @@ package leveldb
 //@   at before call (*DB).unlockWrite#4
 //@     assert [C04:published-before-ack] calls("(*DB).addSeq") == old(calls("(*DB).addSeq")) + 1
 
+// A write that asked for a synced journal keeps that request when it is merged into another writer's group: the
+// group's journal write is synced if the leader or any writer it accepted asked for it (C04: acknowledged synced
+// writes survive a crash; C10: every writer of a group gets the group's durability).
+//@ ghost var gWantSync bool
+//@ func (*DB).writeLocked
+//@   props C04 C10
+//@   at entry
+//@     ghost gWantSync = sync
+//@   loop 1
+//@     invariant [C04,C10:accepted-sync-requests-accumulate] gWantSync ==> sync
+//@   at before stmt db.writeMergedC <- true
+//@     ghost gWantSync = gWantSync || incoming.sync
+//@   at before call (*DB).writeJournal#1
+//@     assert [C04,C10:every-accepted-sync-request-reaches-the-journal] gWantSync ==> arg2
+
 // O8: a transaction may record its sequence number in the manifest only when no frozen memdb is waiting to be
 // flushed (its journal records would be older than the recorded number and recovery would drop them).
 // The acknowledgement of a memdb-compaction command comes from another goroutine (mCompaction acknowledges
@@ -534,6 +549,28 @@ package leveldb
 //@     assert [C08:journal-write-always-followed-by-seq-publication] calls("(*DB).addSeq") - old(calls("(*DB).addSeq")) == calls("(*DB).writeJournal") - old(calls("(*DB).writeJournal"))
 //@   at before call (*Batch).putMem#1
 //@     assert [C08:failed-journal-write-is-not-applied] calls("(*DB).writeJournal") == old(calls("(*DB).writeJournal")) + 1
+// ... and the amount published is the number of records of the group, the count its journal record carries in its
+// header: recovery assigns the header's sequence number and the following ones to the records of the group, so
+// publishing fewer lets a later acknowledged write reuse some of them (and be dropped or hidden on replay).
+//@   at before call (*DB).addSeq#1
+//@     assert [C08:failed-group-publishes-the-count-its-journal-record-carries] arg0 == recsUpTo(batches, len(batches))
+//@   at before call (*DB).addSeq#2
+//@     assert [C08:group-publishes-the-count-its-journal-record-carries] arg0 == recsUpTo(batches, len(batches))
+//@     assert [C08:published-count-is-what-the-memdb-entries-consumed] seq == db.seq + 1 + arg0
+//@   loop 2
+//@     invariant [C08:one-sequence-number-per-record-applied] seq == db.seq + 1 + recsUpTo(batches, rangeidx)
+//@ spec func recsUpTo(b ref, k int) int rec = k <= 0 ? 0 : recsUpTo(b, k-1) + len(b[k-1].index)
+//@ func batchesLen
+//@   props C08
+//@   safety off
+//@   loop 1
+//@     invariant [C08:sum-so-far] batchLen == recsUpTo(batches, rangeidx)
+//@   ensures [C08:counts-every-record-of-the-group] result == recsUpTo(batches, len(batches))
+//@ func writeBatchesWithHeader
+//@   props C08
+//@   safety off
+//@   at before call encodeBatchHeader#1
+//@     assert [C08:journal-header-counts-the-records-of-the-group] arg2 == recsUpTo(batches, len(batches))
 
 // ---------------------------------------------------------------------------
 // LSM structure (C06, C01, C03) with keys abstracted by type (DESIGN.md 3.1): []byte values are user keys
@@ -572,6 +609,8 @@ package leveldb
 
 // Overlap search in a sorted, disjoint level: the result is exactly the files that overlap [umin, umax] in the
 // order of the CONFIGURED comparer.
+//@ ghost var gOvB int
+//@ ghost var gOvE int
 //@ func (tFiles).getOverlaps
 //@   props C06 C01
 //@   abstract keys
@@ -580,6 +619,57 @@ package leveldb
 //@   guarantees [C01,C06:overlap-search-exact-none-missed] (!overlapped && len(tf) > 0) ==> (forall i int :: (0 <= i && i < len(tf) && ovl(tf[i], umin, umax)) ==> (begin <= i && i < end))
 //@   guarantees [C01,C06:overlap-search-exact-none-extra] (!overlapped && len(tf) > 0) ==> (forall i int :: (0 <= i && i < len(tf) && begin <= i && i < end) ==> ovl(tf[i], umin, umax))
 //@   guarantees [C01,C06:result-is-that-range] (!overlapped && len(tf) > 0) ==> (begin < end ==> len(result) == end - begin && forall j int :: 0 <= j && j < end - begin ==> result[j] == tf[begin + j])
+// what a caller learns: the result is the index range [gOvB, gOvE) of tf (ghost out-parameters), and that range is
+// exactly the set of tables overlapping [umin, umax]
+//@   at before stmt return nil#2
+//@     ghost gOvB = begin
+//@     ghost gOvE = begin
+//@   at before stmt return dst#1
+//@     ghost gOvB = begin
+//@     ghost gOvE = end
+//@   modifies dst[0:cap(dst)], gOvB, gOvE
+//@   loop 1
+//@     modifies dst[0:cap(dst)]
+//@     invariant [C01,C06:result-list-is-the-callers-or-new] (samebase(dst, old(dst)) && cap(dst) == cap(old(dst))) || freshbase(dst)
+//@   ensures [C06:empty-level-has-no-overlaps] len(tf) == 0 ==> len(result) == 0
+//@   ensures [C01,C06:result-list-is-the-callers-or-new] isnil(result) || base(result) == base(old(dst)) || freshbase(result)
+//@   ensures [C06:overlap-search-result-is-an-index-range] (!overlapped && len(tf) > 0) ==> (0 <= gOvB && gOvB <= gOvE && gOvE <= len(tf) && len(result) == gOvE - gOvB && (forall j int :: 0 <= j && j < gOvE - gOvB ==> result[j] == tf[gOvB + j]))
+//@   ensures [C06:overlap-search-range-is-exact] (!overlapped && len(tf) > 0) ==> (forall i int :: 0 <= i && i < len(tf) ==> (ovl(tf[i], umin, umax) <==> (gOvB <= i && i < gOvE)))
+
+// C06: the inputs of a compaction. Whatever the source-level inputs end up being (after the growth step too), the
+// parent-level inputs are exactly the parent tables that overlap the user-key range of the source inputs: a parent
+// table that overlaps the outputs but is not an input would share user keys with the new tables of its level.
+// That the version's levels below the top are sorted and disjoint on entry is the induction hypothesis (C06 itself).
+//@ func newCompaction
+//@   props C06
+//@   safety off
+//@ ghost var gT1B int
+//@ ghost var gT1E int
+//@ ghost var gX1B int
+//@ ghost var gX1E int
+//@ func (*compaction).expand
+//@   props C06
+//@   abstract keys
+//@   safety off
+//@   splitpaths
+//@   requires [C06:no-parent-inputs-yet] isnil(c.levels[1]) && isnil(c.gp)
+//@   at entry
+//@     assume [C06:levels-below-the-top-are-sorted-and-disjoint-on-entry] (c.sourceLevel > 0 ==> sortedDisjoint(c.v.levels[c.sourceLevel])) && (c.sourceLevel + 1 < len(c.v.levels) ==> sortedDisjoint(c.v.levels[c.sourceLevel + 1])) && (c.sourceLevel + 2 < len(c.v.levels) ==> sortedDisjoint(c.v.levels[c.sourceLevel + 2]))
+//@     assume [C06:input-list-is-not-a-level-of-the-version] (c.sourceLevel + 1 < len(c.v.levels) ==> !sameblock(c.levels[0], c.v.levels[c.sourceLevel + 1])) && (c.sourceLevel + 2 < len(c.v.levels) ==> !sameblock(c.levels[0], c.v.levels[c.sourceLevel + 2])) && !sameblock(c.levels[0], c.v.levels[c.sourceLevel])
+//@   at call (tFiles).getOverlaps#2
+//@     ghost gT1B = gOvB
+//@     ghost gT1E = gOvE
+//@   at call (tFiles).getOverlaps#4
+//@     ghost gX1B = gOvB
+//@     ghost gX1E = gOvE
+//@   at before stmt t0, t1 = exp0, exp1
+//@     ghost gT1B = gX1B
+//@     ghost gT1E = gX1E
+//@   at before stmt c.levels[0], c.levels[1] = t0, t1
+//@     assert [C06:source-range-covers-the-source-inputs] c.sourceLevel != 0 ==> (forall i int :: 0 <= i && i < len(t0) ==> (ikcmp(imin, t0[i].imin) <= 0 && ikcmp(imax, t0[i].imax) >= 0))
+//@     assert [C06:parent-inputs-are-a-range-of-the-parent-level] len(vt1) > 0 ==> (len(t1) == gT1E - gT1B && (forall j int :: 0 <= j && j < len(t1) ==> t1[j] == vt1[gT1B + j]))
+//@     assert [C06:parent-inputs-are-exactly-the-parent-tables-overlapping-the-source-range] len(vt1) > 0 ==> (forall j int :: 0 <= j && j < len(vt1) ==> (ovl(vt1[j], ukeyof(imin), ukeyof(imax)) <==> (gT1B <= j && j < gT1E)))
+//@     assert [C06:no-parent-level-no-parent-inputs] len(vt1) == 0 ==> len(t1) == 0
 
 // ---------------------------------------------------------------------------
 // C04: recovery itself can crash. A replayed journal file may only be removed after a manifest commit that
@@ -903,6 +993,32 @@ package leveldb
 //@   abstract keys
 //@   requires sortedDisjoint(tf)
 //@   ensures [partition-point] 0 <= result && result <= len(tf) && (forall j int :: 0 <= j && j < result ==> ikcmp(tf[j].imax, ikey) < 0) && (forall j int :: result <= j && j < len(tf) ==> ikcmp(tf[j].imax, ikey) >= 0)
+//@ func (tFiles).searchMin
+//@   props C06
+//@   abstract keys
+//@   requires sortedDisjoint(tf)
+//@   ensures [partition-point] 0 <= result && result <= len(tf) && (forall j int :: 0 <= j && j < result ==> ikcmp(tf[j].imin, ikey) < 0) && (forall j int :: result <= j && j < len(tf) ==> ikcmp(tf[j].imin, ikey) >= 0)
+// C06: a new version is built by splicing the tables a compaction added into the level they belong to. The
+// splice (binary search for the insertion point instead of a re-sort) must leave a level below the top sorted and
+// disjoint, provided the added tables are and every table that stays lies wholly before or wholly after them -
+// the premise the code comment states; it is an assumption here (it is the compaction's input selection, C06
+// getOverlaps / expand).
+// (the order inside level 0 is not part of C06; the search there is left abstract)
+//@ func (tFiles).searchNumLess
+//@   props C06
+//@   trusted
+//@   ensures 0 <= result && result <= len(tf)
+//@ func (*versionStaging).finish
+//@   props C06
+//@   abstract keys
+//@   safety off
+//@   deepinst
+//@   at before stmt _, amax := added.getRange(p.base.s.icmp)
+//@     assume [kept-and-added-tables-are-each-sorted] sortedDisjoint(nt) && sortedDisjoint(added) && len(added) > 0 && !sameblock(nt, added)
+//@   at before stmt nt = append(nt[:index], append(added, nt[index:]...)...)#2
+//@     assume [added-tables-fill-a-gap] (forall i int :: 0 <= i && i < len(nt) ==> (kcmp(ukeyof(nt[i].imax), ukeyof(added[0].imin)) < 0 || kcmp(ukeyof(nt[i].imin), ukeyof(amax)) > 0))
+//@   at after stmt nt = append(nt[:index], append(added, nt[index:]...)...)#2
+//@     assert [C06:spliced-level-stays-sorted-and-disjoint] sortedDisjoint(nt)
 //@ func (tFiles).overlaps
 //@   props C06 C01
 //@   abstract keys
